@@ -123,6 +123,29 @@ class SymEmu:
             self.put(d, vals)
         elif m == "orr" and len(vec) == 3 and ops[1].name == ops[2].name:
             self.put(d, self.lanes(ops[1]))
+        elif m == "fcmeq" and len(vec) == 3 and ops[1].name == ops[2].name:
+            # "is not NaN": on the real numbers this model speaks about, always (all ones)
+            self.put(d, ["ones"] * max(1, d.nbytes // 4))
+        elif m in ("mvn", "not") and len(vec) == 2 and all(q in ("ones", "zeros") for q in self.lanes(ops[1])):
+            self.put(d, ["zeros" if q == "ones" else "ones" for q in self.lanes(ops[1])])
+        elif m in ("and", "orr", "bic", "orn") and len(vec) == 3 and any(q in ("ones", "zeros") for q in self.lanes(ops[1]) + self.lanes(ops[2])):
+            out = []
+            for p_, q_ in zip(self.lanes(ops[1]), self.lanes(ops[2])):
+                if m in ("bic", "orn") and q_ in ("ones", "zeros"):
+                    q_ = "zeros" if q_ == "ones" else "ones"
+                if m in ("bic", "orn") and q_ not in ("ones", "zeros"):
+                    out.append(None)
+                    continue
+                base = "and" if m in ("and", "bic") else "orr"
+                mk, other = (p_, q_) if p_ in ("ones", "zeros") else (q_, p_)
+                if other in ("ones", "zeros"):
+                    both = (mk == "ones" and other == "ones") if base == "and" else (mk == "ones" or other == "ones")
+                    out.append("ones" if both else "zeros")
+                elif base == "and":
+                    out.append(other if mk == "ones" else "zeros")
+                else:
+                    out.append(other if mk == "zeros" else "ones")
+            self.put(d, out)
         elif m == "fmov" and len(ops) == 2 and ops[1].kind == "imm":
             v = self._fimm(ops[1].text)
             if v is None:
